@@ -13,6 +13,7 @@ import (
 	"github.com/klev-dev/klevdb/pkg/index"
 	"github.com/klev-dev/klevdb/pkg/message"
 	"github.com/klev-dev/klevdb/pkg/segment"
+	"github.com/klev-dev/klevdb/pkg/vhook"
 )
 
 var (
@@ -168,12 +169,14 @@ func (l *log) Publish(msgs []message.Message) (int64, error) {
 			return OffsetInvalid, err
 		}
 
+		vhook.At("publish.rollover.afterSync")
 		oldReader, nextOffset, nextTime := l.writer.ReopenReader()
 		newWriter, err := openWriter(segment.New(l.dir, nextOffset, l.opts.AutoSync), l.params, l.opts.Version.NewSegmentsVersion, nextTime)
 		if err != nil {
 			return OffsetInvalid, err
 		}
 
+		vhook.At("publish.rollover.beforeSwap")
 		l.readersMu.Lock()
 
 		l.readers[len(l.readers)-1] = oldReader
@@ -181,6 +184,7 @@ func (l *log) Publish(msgs []message.Message) (int64, error) {
 		l.readers = append(l.readers, newWriter.reader)
 
 		l.readersMu.Unlock()
+		vhook.At("publish.rollover.afterSwap")
 
 		if err := oldWriter.Close(); err != nil {
 			return OffsetInvalid, err
@@ -192,6 +196,7 @@ func (l *log) Publish(msgs []message.Message) (int64, error) {
 		return OffsetInvalid, err
 	}
 
+	vhook.At("publish.beforeAutoSync")
 	if l.opts.AutoSync {
 		if err := l.writer.Sync(); err != nil {
 			return OffsetInvalid, err
@@ -378,6 +383,7 @@ func (l *log) delete(offsets map[int64]struct{}) ([]Message, int64, error) {
 	if err != nil {
 		return nil, 0, err
 	}
+	vhook.At("delete.afterFind")
 
 	wasWriter := false
 	l.writerMu.Lock()
@@ -389,6 +395,7 @@ func (l *log) delete(offsets map[int64]struct{}) ([]Message, int64, error) {
 		}
 	}
 	l.writerMu.Unlock()
+	vhook.At("delete.afterSyncUnlock")
 
 	mversion := l.opts.Version.NewSegmentsVersion.messages
 	iversion := l.opts.Version.NewSegmentsVersion.index
@@ -418,6 +425,7 @@ func (l *log) delete(offsets map[int64]struct{}) ([]Message, int64, error) {
 		return nil, 0, err
 	}
 
+	vhook.At("delete.afterRewrite")
 	if len(rs.DeletedMessages) == 0 {
 		// deleted nothing, just remove rewrite files
 		return nil, 0, rs.Remove()
@@ -431,6 +439,7 @@ func (l *log) delete(offsets map[int64]struct{}) ([]Message, int64, error) {
 		l.readersMu.Lock()
 		defer l.readersMu.Unlock()
 
+		vhook.At("delete.head.beforeSwap")
 		newWriter, newReader, err := l.writer.Delete(rs)
 		switch {
 		case err == errSegmentChanged:
@@ -456,6 +465,7 @@ func (l *log) delete(offsets map[int64]struct{}) ([]Message, int64, error) {
 		if err := rs.Remove(); err != nil {
 			return nil, 0, err
 		}
+		vhook.At("delete.retry")
 		return l.delete(offsets)
 	}
 
@@ -463,6 +473,7 @@ func (l *log) delete(offsets map[int64]struct{}) ([]Message, int64, error) {
 	l.readersMu.Lock()
 	defer l.readersMu.Unlock()
 
+	vhook.At("delete.reader.beforeSwap")
 	newReader, err := rdr.Delete(rs)
 	if err != nil {
 		return nil, 0, err
